@@ -26,6 +26,8 @@ type SiteResult struct {
 	FailPath  string   `json:"fail_path,omitempty"`
 	FailStat  string   `json:"fail_status,omitempty"`
 	Model     map[string]string `json:"model,omitempty"`
+	// post obligations: values the counterexample predicts for the scalar results ("" = not predicted)
+	PredictedResults []string `json:"predicted_results,omitempty"`
 	SolverOut string   `json:"solver_output,omitempty"`
 	Replay    *ReplayResult `json:"replay,omitempty"`
 }
@@ -152,7 +154,13 @@ func solveFunction(fr *FuncResult, opts CheckOpts) {
 			}
 			if o.Res.Status != "unsat" {
 				asserts = append(append([]*Term{}, ex.nlAxioms...), asserts...)
-				o.Res = Solve(ex.env.d, asserts, ex.inputs, timeout, opts.All, o.Site+" @"+o.Path)
+				gv := ex.inputs
+				for _, rt := range o.Results {
+					if rt != nil && rt.IntVal == nil && len(rt.Args)+len(rt.Op) > 0 {
+						gv = append(append([]*Term{}, gv...), rt)
+					}
+				}
+				o.Res = Solve(ex.env.d, asserts, gv, timeout, opts.All, o.Site+" @"+o.Path)
 			}
 			if o.Res.Status == "sat" && os.Getenv("GOCV_DEBUG") != "" {
 				for _, cj := range flattenAnd(o.Goal) {
@@ -263,6 +271,17 @@ func solveFunction(fr *FuncResult, opts CheckOpts) {
 						sr.Model[nn] = v
 					} else {
 						sr.Model[k] = v
+					}
+				}
+				sr.PredictedResults = nil
+				for _, rt := range o.Results {
+					switch {
+					case rt == nil:
+						sr.PredictedResults = append(sr.PredictedResults, "")
+					case rt.IntVal != nil || rt.IsTrue() || rt.String() == "false":
+						sr.PredictedResults = append(sr.PredictedResults, rt.String())
+					default:
+						sr.PredictedResults = append(sr.PredictedResults, o.Res.Model[rt.String()])
 					}
 				}
 				sr.SolverOut = truncate(o.Res.Output, 4000)
